@@ -843,9 +843,25 @@ class IndexPlugin(Plugin):
         self.idx = [m for m in mon.markets if isinstance(m, IndexMarket)]
         self.n = 0
         self.w_at_advance: Dict[int, List[int]] = {}
+        self.mon_ = mon
+        self.comp_reported = False
+        self.configured: Dict[str, List[Any]] = {}
+        cfg = mon.ext.get("cfg") or {}
+        for im in self.idx:
+            names = (cfg.get(im.name) or {}).get("markets") if isinstance(cfg.get(im.name), dict) else None
+            if names and all(n_ in mon.sim.name2market for n_ in names):
+                self.configured[im.name] = [mon.sim.name2market[n_] for n_ in names]
 
     def _weights(self, im):
         comps = im.get_components()
+        conf = self.configured.get(im.name)
+        if conf is not None:
+            # the components are the configured ones, for the whole run (nobody may trim or extend the list)
+            if [c.name for c in comps] != [c.name for c in conf] and not self.comp_reported:
+                self.comp_reported = True
+                self.mon_.viol("C17", "components_changed", {"index": im.name, "configured": [c.name for c in conf],
+                                                             "now": [c.name for c in comps]})
+            comps = conf
         return comps, [c.outstanding_shares for c in comps]
 
     def check_values(self, mon, where, all_times=False):
@@ -877,7 +893,7 @@ class IndexPlugin(Plugin):
 
     def post_tick(self, mon, market, mm, t):
         if isinstance(market, IndexMarket):
-            self.w_at_advance[id(market)] = [c.outstanding_shares for c in market.get_components()]
+            self.w_at_advance[id(market)] = [c.outstanding_shares for c in self.configured.get(market.name, market.get_components())]
 
     def check_fundamental(self, mon, where):
         for im in self.idx:
